@@ -114,6 +114,8 @@ Abrupt(r) == r.c.ty # "normal"
 RECURSIVE Resolve(_, _, _)
 RECURSIVE FindProp(_, _, _)
 FindProp(st, i, key) == IF i = 0 THEN PropNone ELSE IF st.objs[i][key].k # "none" THEN st.objs[i][key] ELSE FindProp(st, st.objs[i].p, key)
+\* the modelled object behind a value: an object, or the static side of a class constructor
+ObjOf(st, v) == IF v.t = "obj" THEN v.v ELSE IF v.t = "fn" THEN st.fns[v.v].so ELSE 0
 Resolve(st, env, x) == IF env = 0 THEN 0
                        ELSE IF st.envs[env].wobj # 0
                        THEN (IF x \in ObjKeys /\ FindProp(st, st.envs[env].wobj, x).k # "none" THEN env ELSE Resolve(st, st.envs[env].parent, x))   \* HasProperty
@@ -157,14 +159,14 @@ LexVars(l, base) == [n \in Names |-> IF \E i \in LexDecls(l) : n \in DeclTargets
 
 -----------------------------------------------------------------------------
 RECURSIVE EvalE(_, _, _, _), EvalS(_, _, _, _), EvalL(_, _, _, _, _), EvalArgs(_, _, _, _, _, _), CallFn(_, _, _, _),
-          EvalBlock(_, _, _, _), ForLoop(_, _, _, _, _), EvalProps(_, _, _, _, _, _), GetV(_, _, _), PutV(_, _, _, _, _), GetRef(_, _, _), PutRef(_, _, _, _, _), RunFn(_, _, _, _, _), Construct(_, _, _, _), MkClass(_, _, _), DefMembers(_, _, _, _, _, _), BindPat(_, _, _, _, _, _, _), HoistF(_, _, _, _, _), BindParams(_, _, _, _, _, _),
+          EvalBlock(_, _, _, _), ForLoop(_, _, _, _, _), EvalProps(_, _, _, _, _, _), GetV(_, _, _), PutV(_, _, _, _, _), GetRef(_, _, _), PutRef(_, _, _, _, _), RunFn(_, _, _, _, _), Construct(_, _, _, _), SuperGet(_, _, _, _), MkClass(_, _, _), DefMembers(_, _, _, _, _, _), BindPat(_, _, _, _, _, _, _), HoistF(_, _, _, _, _), BindParams(_, _, _, _, _, _),
           FindCase(_, _, _, _, _, _), RunCases(_, _, _, _, _), ForOf(_, _, _, _, _, _)
 
 \* closures: [p: parameter names, body: statement list, env, kind: "arrow" | "func" | "named", name, strict]
 MkFn(st, e, env, strict) ==
   \* so / po: the objects holding a class constructor's static members / its prototype property; par: the superclass constructor; der: derived
   LET cl == [p |-> e.p, d |-> e.d, pp |-> e.pp, body |-> e.k, env |-> env, kind |-> e.kind, name |-> e.x, strict |-> strict \/ e.s = 1,
-             so |-> 0, po |-> 0, par |-> 0, der |-> FALSE]
+             so |-> 0, po |-> 0, par |-> 0, der |-> FALSE, home |-> 0]
   IN [st |-> [st EXCEPT !.fns = Append(@, cl)], id |-> Len(st.fns) + 1]
 
 EvalE(e, env, st, sm) ==
@@ -248,6 +250,34 @@ EvalE(e, env, st, sm) ==
                                    ELSE CallFn(as.r.st, f.c.v.v, as.vals, o.c.v))
     [] e.t = "this" -> (LET th == st.envs[st.envs[env].fenv].th IN IF th.t = "tdz" THEN Thr(st, RefErr) ELSE Ok(st, th))
     [] e.t = "classe" -> MkClass(e, env, st)
+    \* 13.3.7 super.key / super.key(args) / super.key = v in a method or constructor: the lookup starts at the prototype of the
+    \* [[HomeObject]], the receiver is the current this (GetThisBinding first: ReferenceError before super() returned)
+    [] e.t \in {"superget", "supermcall", "superset"} ->
+         (LET fe == st.envs[env].fenv
+              th == st.envs[fe].th
+              home == IF st.envs[fe].fid = 0 THEN 0 ELSE st.fns[st.envs[fe].fid].home
+          IN IF th.t = "tdz" THEN Thr(st, RefErr)
+             ELSE IF home = 0 THEN Thr(st, Err(7777))                    \* (only generated in class members and constructors)
+             ELSE IF e.t = "superget" THEN SuperGet(st, st.objs[home].p, e.x, th)
+             ELSE IF e.t = "supermcall"
+             THEN LET f == SuperGet(st, st.objs[home].p, e.x, th) IN
+                  IF Abrupt(f) THEN f
+                  ELSE LET as == EvalArgs(e.k, 1, env, f.st, sm, <<>>) IN
+                       IF Abrupt(as.r) THEN as.r
+                       ELSE IF f.c.v.t # "fn" THEN Thr(as.r.st, TypeErr)
+                       ELSE CallFn(as.r.st, f.c.v.v, as.vals, th)
+             ELSE LET rv == EvalE(e.k[1], env, st, sm) IN
+                  IF Abrupt(rv) THEN rv
+                  ELSE LET th2 == rv.st.envs[fe].th            \* (the right-hand side may have called super())
+                           pr == FindProp(rv.st, rv.st.objs[home].p, e.x)
+                       IN \* 10.1.9.2 with the parent as the object and this as the receiver: an inherited setter runs with the receiver; otherwise
+                          \* the property is created / overwritten on the receiver
+                          IF pr.k = "acc" THEN (IF pr.s = 0 THEN Thr(rv.st, TypeErr)        \* (class code is strict)
+                                                ELSE LET c == CallFn(rv.st, pr.s, <<rv.c.v>>, th2) IN IF Abrupt(c) THEN c ELSE Ok(c.st, rv.c.v))
+                          ELSE IF ObjOf(rv.st, th2) = 0 THEN Thr(rv.st, Err(7777))
+                          ELSE LET own == rv.st.objs[ObjOf(rv.st, th2)][e.x] IN
+                               IF own.k = "acc" THEN Thr(rv.st, TypeErr)                     \* (the receiver's own accessor refuses a data write)
+                               ELSE Ok([rv.st EXCEPT !.objs[ObjOf(rv.st, th2)][e.x] = DataProp(rv.c.v)], rv.c.v))
     \* 13.3.7.1 SuperCall: arguments, Construct(parent, args, new.target), then BindThisValue (a second super() constructs again and
     \* only then fails with a ReferenceError)
     [] e.t = "supercall" ->
@@ -345,8 +375,10 @@ EvalProps(k, i, env, st, sm, rec) ==
             IF Abrupt(v) THEN [r |-> v, rec |-> rec]
             ELSE EvalProps(k, i + 1, env, v.st, sm, [rec EXCEPT ![pr.x] = DataProp(v.c.v)])
 
-\* the modelled object behind a value: an object, or the static side of a class constructor
-ObjOf(st, v) == IF v.t = "obj" THEN v.v ELSE IF v.t = "fn" THEN st.fns[v.v].so ELSE 0
+\* a property read that starts at object i with receiver th
+SuperGet(st, i, key, th) ==
+  LET pr == FindProp(st, i, key) IN
+  IF pr.k = "none" THEN Ok(st, Undef) ELSE IF pr.k = "data" THEN Ok(st, pr.v) ELSE IF pr.g = 0 THEN Ok(st, Undef) ELSE CallFn(st, pr.g, <<>>, th)
 \* 7.3.3 GetV: ToObject(undefined) throws; the keys a / b exist on object literals only; a getter runs
 GetV(st, v, key) ==
   IF v.t = "undef" THEN Thr(st, TypeErr)
@@ -422,7 +454,8 @@ DefMembers(k, i, cenv, st, po, so) ==
   IF i > Len(k) THEN st
   ELSE LET mb == k[i]
            tgt == IF mb.st = 1 THEN so ELSE po
-           m == MkFn(st, [mb.k[1] EXCEPT !.kind = IF mb.kind = "m" THEN "meth" ELSE "acc"], cenv, TRUE)
+           m0 == MkFn(st, [mb.k[1] EXCEPT !.kind = IF mb.kind = "m" THEN "meth" ELSE "acc"], cenv, TRUE)
+           m == [st |-> [m0.st EXCEPT !.fns[m0.id].home = tgt], id |-> m0.id]           \* [[HomeObject]]
            old == m.st.objs[tgt][mb.x]
            pr == IF mb.kind = "m" THEN DataProp(Fn(m.id))
                  ELSE [k |-> "acc", v |-> Undef, g |-> IF mb.kind = "get" THEN m.id ELSE IF old.k = "acc" THEN old.g ELSE 0,
@@ -445,7 +478,7 @@ MkClass(e, env, st) ==
                     ELSE [p |-> <<>>, d |-> <<>>, pp |-> <<>>, x |-> "", s |-> 1,
                           k |-> IF der THEN << [t |-> "expr", k |-> << [t |-> "supercall", spread |-> 1, k |-> <<>>] >>] >> ELSE <<>>]
               cl == [p |-> cn.p, d |-> cn.d, pp |-> cn.pp, body |-> cn.k, env |-> cenv, kind |-> "class", name |-> e.x, strict |-> TRUE,
-                     so |-> so, po |-> po, par |-> par, der |-> der]
+                     so |-> so, po |-> po, par |-> par, der |-> der, home |-> po]
               st3 == [st2 EXCEPT !.fns = Append(@, cl)]
               id == Len(st3.fns)
               st4 == DefMembers(e.k, 1, cenv, st3, po, so)
